@@ -155,6 +155,8 @@ class FormStream:
         self.ops.append('pipe_until')
         if not self.v.concrete:
             self.frame = self.v.ctx.interp.frames[-1]  # the iterating frame: lets the harness read the ghost "parts yielded so far"
+            # ownership: the mutable objects that already exist when an iteration starts (a part yielded earlier may hold them)
+            self.objects_at_iteration_start = {id(x) for x in self.frame.locals.values() if isinstance(x, (dict, list))}
         self._maybe_fail('pipe_until')
         return self._ret(None)
 
@@ -219,6 +221,10 @@ def _form_iter(asgi):
 
         def bodypart(I, stream, headers, parse_options):
             created.append((stream, headers, parse_options))
+            # "each with the encoded name, filename, content type": a part keeps its headers for as long as the application keeps
+            # the part, so the mapping handed to it must be allocated for this part -- not one that existed before this iteration
+            # (which an earlier part may still hold and which a later iteration would overwrite)
+            v.check('each-part-owns-its-header-mapping', id(headers) not in st.objects_at_iteration_start)
             ys = st.frame.locals['$yields']
             n = ys.length() if hasattr(ys, 'length') else len(ys)
             v.check('part-accepted-only-within-the-count-limit', Or(opts.max_body_part_count == 0, n + 1 <= opts.max_body_part_count))
